@@ -3,7 +3,7 @@ import ast
 import z3
 
 from . import theory as T
-from . import types as TY
+from . import tys as TY
 from .sv import (SV, NONE, NOTIMPL, MObj, Frame, Closure, BoundMethod, BuiltinRef, OutOfSubset, SymRaise, ReturnEx,
                  StaleContract, mk_int, mk_bool, mk_real, mk_str, mk_bytes)
 from .interp import is_num, as_int_term, as_real_term, const_int
